@@ -49,7 +49,7 @@ def open_store(s):
                       data_dir=os.path.join(s.root, "sandbox", "d", "data"), **kw)
     else:
         dds.set_store("dbfs", internal_dir="dbfs:/int", data_dir="dbfs:/data", dbutils=s.db)
-    st = api._store_var
+    st = api._store()
     api._store_var = None
     return st
 
